@@ -2008,6 +2008,218 @@ def run_delta_dep(c):
     return problems, counts
 
 
+# --------------------------------------------------------------------------------------
+# Delta substitution rule / Delta + Delta on dependent multi-name Deltas vs Model/C14Subs (Props/C14/Subs.lean)
+# --------------------------------------------------------------------------------------
+
+SUBS_W = [Fraction(0), Fraction(1, 2), Fraction(1), Fraction(1), Fraction(2), Fraction(3)]
+
+
+def _subs_term(rs, name, size, deps, vars_):
+    shape = tuple(vars_[d] for d in deps)
+    n = int(np.prod(shape)) if shape else 1
+    pt = [int(v) for v in rs.randint(0, size, size=n)]
+    w = [SUBS_W[int(i)] for i in rs.randint(0, len(SUBS_W), size=n)]
+    return dict(name=name, deps=list(deps), pt=pt, w=w)
+
+
+def _subs_delta(terms, vars_):
+    out = []
+    for t in terms:
+        shape = tuple(vars_[d] for d in t["deps"])
+        inp = OrderedDict((d, Bint[vars_[d]]) for d in t["deps"])
+        out.append((t["name"], (Tensor(np.array(t["pt"]).reshape(shape), inp, vars_[t["name"]]),
+                                Tensor(log_of([float(x) for x in t["w"]]).reshape(shape), inp))))
+    return Delta(tuple(out))
+
+
+def _subs_wire(t):
+    return [t["name"], t["deps"], t["pt"], t["w"]]
+
+
+def _subs_dense(r, vars_):
+    """Dense linear-space table of a funsor over its (integer) inputs, names sorted; None = declined (lazy)."""
+    out = sorted(r.inputs)
+    if any(n not in vars_ for n in out):
+        raise KeyError(f"unexpected input in result: {out}")
+    ren = {n: Tensor(np.arange(vars_[n]), OrderedDict([(n + "__i", Bint[vars_[n]])]), vars_[n]) for n in out}
+    g = r(**ren) if ren else r
+    t = table(g, [(n + "__i", vars_[n]) for n in out])
+    return out, (None if t is None else np.exp(t))
+
+
+def run_delta_subs(c):
+    """-> (problems, counts, request, checker(answer) -> problems) ; pure function of the case (replayable)."""
+    rs = np.random.RandomState(c["seed"])
+    vars_ = {"b": int(rs.randint(2, 4)), "c": int(rs.randint(2, 4)), "e": int(rs.randint(2, 4))}
+    fresh = ["x", "y", "z"][:int(rs.randint(1, 4))]
+    for n in fresh:
+        vars_[n] = int(rs.randint(2, 4))
+    problems, counts = [], []
+    if c["kind"] == "subs":
+        terms = []
+        for n in fresh:
+            deps = [d for d in ("b", "c") if rs.rand() < 0.4]
+            terms.append(_subs_term(rs, n, vars_[n], deps, vars_))
+        subs, wire_subs, new_names = OrderedDict(), [], iter(["u", "v", "t"])
+        for n in fresh + ["b", "c"]:
+            k = rs.rand()
+            if n in ("b", "c") and n not in {d for t in terms for d in t["deps"]}:
+                continue
+            if k < 0.3:
+                continue
+            if k < 0.55:
+                if n in fresh:
+                    y = next(new_names)
+                elif vars_["e"] == vars_[n] and not any(isinstance(v, Variable) and v.name == "e" for v in subs.values()):
+                    y = "e"        # renamed onto a name that substituted values may also read (same size)
+                else:
+                    y = n + "2"
+                vars_[y] = vars_[n]
+                subs[n] = Variable(y, Bint[vars_[n]])
+                wire_subs.append([n, "var", y])
+            else:
+                deps = [d for d in ("c", "e") if rs.rand() < 0.4 and vars_.get(d)]
+                shape = tuple(vars_[d] for d in deps)
+                data = rs.randint(0, vars_[n], size=shape)
+                subs[n] = Tensor(np.array(data), OrderedDict((d, Bint[vars_[d]]) for d in deps), vars_[n])
+                wire_subs.append([n, "val", deps, [int(v) for v in np.asarray(data).reshape(-1)]])
+        if not subs:
+            return None
+        try:
+            with np.errstate(all="ignore"):
+                d = _subs_delta(terms, vars_)
+                r = d(**subs)
+                out, dense = _subs_dense(r, vars_)
+        except DECLINE as ex:
+            counts.append(f"declined:{type(ex).__name__}")
+            return problems, counts, None, None
+        keep = set(d.inputs) - set(subs)
+        for k_, v in subs.items():
+            if k_ in d.inputs:
+                keep |= set(v.inputs)
+        if set(out) != keep:
+            problems.append(("C14.delta-subs-inputs", "inputs of Delta(terms)(**subs)", str(sorted(keep)), str(out)))
+        kind = "delta" if isinstance(r, Delta) else ("scale" if isinstance(r, (Tensor, Number)) else "both")
+        fresh_got = sorted(r.fresh) if isinstance(r, Delta) else None
+        req = f"C14 delta-subs {sx([[n, s] for n, s in vars_.items()])} {sx([_subs_wire(t) for t in terms])} {sx(wire_subs)} {sx(out)}"
+    else:
+        mode = c["mode"]
+        nl = max(1, len(fresh) - 1)
+        lf, rf = fresh[:nl], fresh[nl:] or ["w"]
+        if rf == ["w"]:
+            vars_["w"] = int(rs.randint(2, 4))
+        if mode == "shared":
+            rf = [lf[0]] + [n for n in rf if n != lf[0]]
+        lt, rt = [], []
+        for n in lf:
+            deps = [d for d in ("b",) if rs.rand() < 0.4] + ([rf[0]] if mode == "right-binds" and n == lf[0] else [])
+            lt.append(_subs_term(rs, n, vars_[n], deps, vars_))
+        for n in rf:
+            deps = [d for d in ("b", "c") if rs.rand() < 0.4] + ([m for m in lf if rs.rand() < 0.7 and m != n] if mode in ("left-binds", "shared") else [])
+            if mode == "left-binds" and n == rf[0] and lf[0] not in deps:
+                deps.append(lf[0])
+            rt.append(_subs_term(rs, n, vars_[n], deps, vars_))
+        try:
+            with np.errstate(all="ignore"):
+                dl, dr = _subs_delta(lt, vars_), _subs_delta(rt, vars_)
+                r = dl + dr
+                out, dense = _subs_dense(r, vars_)
+        except DECLINE as ex:
+            counts.append(f"declined:{type(ex).__name__}")
+            return problems, counts, None, None
+        keep = set(dl.inputs) | set(dr.inputs)
+        if set(out) != keep:
+            problems.append(("C14.delta-add-inputs", "inputs of Delta + Delta", str(sorted(keep)), str(out)))
+        kind = "delta" if isinstance(r, Delta) else ("scale" if isinstance(r, (Tensor, Number)) else "both")
+        fresh_got = sorted(r.fresh) if isinstance(r, Delta) else None
+        req = f"C14 delta-add {sx([[n, s] for n, s in vars_.items()])} {sx([_subs_wire(t) for t in lt])} {sx([_subs_wire(t) for t in rt])} {sx(out)}"
+    if dense is None:
+        counts.append("lazy")
+        return problems, counts, None, None
+
+    def checker(ans):
+        ps = []
+        a = parse_sx("(" + ans + ")")
+        if a[0] != "ok":
+            return [("infra", ans, "", "")]
+        if c["kind"] == "subs":
+            mkind, mnames, model, spec = a[1], a[2], a[5], a[6]
+        else:
+            mkind, mnames, model, spec = a[1], a[2], a[4], a[5]
+        model = np.array([float(atom_to_num(x)) for x in model]).reshape(dense.shape)
+        spec = np.array([float(atom_to_num(x)) for x in spec]).reshape(dense.shape)
+        if not np.array_equal(model, spec):
+            return [("infra", "Lean model and Lean spec disagree (contradicts deltaSubs_sem / addMultidelta_sem)", str(spec.tolist()), str(model.tolist()))]
+        if not np.allclose(dense, spec, rtol=1e-9, atol=1e-12):
+            ps.append((f"C14.delta-{c['kind']}-value", f"density of the result over {out} vs the substituted / product density",
+                       str(spec.tolist()), str(dense.tolist())))
+        counts.append(f"model:{mkind}")
+        if c["kind"] == "subs":
+            counts.append("shape-agrees" if mkind == kind else f"shape-differs:{mkind}-vs-{kind}")
+        if fresh_got is not None:
+            counts.append("fresh-agrees" if sorted(str(x) for x in mnames) == fresh_got else "fresh-differs")
+        return ps
+
+    return problems, counts, req, checker
+
+
+SUBS_PY = """
+# replay for C14: Delta(terms)(**subs) / Delta + Delta on multi-name Deltas with dependent points, against the dense
+# density computed by the Lean model (fv/harness/c14.py run_delta_subs; needs lean/.lake/build/bin/drv_c14)
+import sys, subprocess
+sys.path.insert(0, {verif!r})
+from fv.harness.c14 import run_delta_subs
+res = run_delta_subs({case!r})
+problems = list(res[0]) if res else []
+if res and res[2]:
+    ans = subprocess.run([{drv!r}], input=res[2] + "\\n", capture_output=True, text=True).stdout.strip()
+    problems += res[3](ans)
+for p in problems:
+    print(p)
+FAILS = bool(problems)
+"""
+
+
+def delta_subs_stream(ctx, n):
+    cases, reqs = [], []
+    for _ in range(n):
+        kind = ctx.rng.choice(["subs", "subs", "add"])
+        c = dict(seed=ctx.rng.randrange(2 ** 31), kind=kind,
+                 mode=ctx.rng.choice(["left-binds", "left-binds", "right-binds", "concat", "shared"]) if kind == "add" else None)
+        res = guarded(ctx, "delta-subs", run_delta_subs, c)
+        if res is None:
+            ctx.count("delta-subs:skipped")
+            continue
+        problems, counts, req, checker = res
+        if req is None or problems:
+            for k_ in counts:
+                ctx.count(f"delta-{kind}:" + k_)
+            if problems:
+                name, prob, exp_, got_ = problems[0]
+                ctx.fail("input", name, witness=dict(c, problem=prob), expected=exp_, got=got_,
+                         python=SUBS_PY.format(verif=str(_VERIF()), case=c, drv=str(LEAN / ".lake/build/bin/drv_c14")))
+            continue
+        cases.append((c, counts, checker))
+        reqs.append(req)
+    if not reqs:
+        return
+    for (c, counts, checker), ans in zip(cases, ctx.driver.ask(reqs)):
+        ps = checker(ans)
+        for k_ in counts:
+            ctx.count(f"delta-{c['kind']}:" + k_)
+        if ps and ps[0][0] == "infra":
+            ctx.infra_errors.append(f"delta-subs driver: {ps[0][1]} {ps[0][2]} {ps[0][3]} on {c}")
+            continue
+        if ps:
+            name, prob, exp_, got_ = ps[0]
+            ctx.fail("input", name, witness=dict(c, problem=prob), expected=exp_, got=got_,
+                     python=SUBS_PY.format(verif=str(_VERIF()), case=c, drv=str(LEAN / ".lake/build/bin/drv_c14")))
+            continue
+        ctx.count(f"delta-{c['kind']}:ok" + (":" + c["mode"] if c["mode"] else ""))
+        ctx.case(sample=c, nontrivial_key=("delta-subs", str(c)))
+
+
 def delta_streams(ctx, use_driver=True):
     rng = ctx.rng
     n = 200 if ctx.tier == "quick" else 2500
@@ -2023,6 +2235,8 @@ def delta_streams(ctx, use_driver=True):
         guarded(ctx, "delta-arith", delta_arith_case, ctx)
     for _ in range(70 if ctx.tier == "quick" else 1500):
         guarded(ctx, "delta-dep", delta_dep_case, ctx)
+    if use_driver:
+        delta_subs_stream(ctx, 120 if ctx.tier == "quick" else 2000)
 
 
 # --------------------------------------------------------------------------------------
@@ -3109,6 +3323,12 @@ def correspond(ctx):
         "Tensor not mentioning x; value at / off the point, mass, Integrate against 1 and an integrand vs the point-wise "
         "definition.  Dependent Deltas: Delta(x) + Delta(y, point(x), log-density(x)) (table indexed by a discrete x, affine in "
         "a real x), both operand orders and triples: joint value at / off the point, x gone after reducing it, value = w[b, k].  "
+        "Substitution rule / Delta + Delta vs the Lean model (Model/C14Subs): Deltas binding 1-3 integer names with points and "
+        "log-densities (weights in {0,1/2,1,2,3}) tabulated over batch inputs and, for sums, over the other operand's names "
+        "(left binds / right binds / independent / same name on both sides); substitutions mixing Variables (renaming), "
+        "constant and batched integer values, on bound names and on batch inputs; gate: result inputs and the dense "
+        "density over all inputs = original density at the substituted environment (resp. product of the two densities), "
+        "as proved for the model (deltaSubs_sem, addMultidelta_sem); return shape and bound names counted.  "
         "Non-trivial = a row with >= 2 positive cells (sample), domain size >= 2 "
         "(Delta), >= 2 sampled dimensions or a conditioning block (Gaussian); distinct by full case content.")
     radix_box(ctx)
